@@ -148,7 +148,9 @@ JudgeProbe(e) ==
                                     \cup (IF e.v = 5 /\ p.rt # r.rt THEN {"rt"} ELSE {})
                                     \cup (IF e.v = 5 /\ p.cd # r.cd THEN {"cd"} ELSE {})
                                     \cup (IF e.v = 5 /\ p.up # r.up THEN {"up"} ELSE {})
-                                    \cup (IF e.v = 5 /\ ((r.mei > 0) # (p.mei > 0)) THEN {"mei"} ELSE {})}
+                                    \cup (IF e.v = 5 /\ ((r.mei > 0 \/ r.expiry > 0) # (p.mei > 0)) THEN {"mei"} ELSE {})}
+                                    \* (a message with an expiry time - the publisher's interval or the server's maximum - is sent
+                                    \*  with the remaining interval, as the broker does before the restart)
                   : i \in 1..Len(e.a.filters)}
       [] e.ev = "publish" /\ e.err = "" /\ ~e.a.retain ->
             LET ts == Join(e.a.t)
